@@ -437,6 +437,114 @@ class Analyzer:
         return res
 
 
+def abstract_run(analyzer, fn, init, transfer, inline=None, depth=3, _memo=None, _stack=()):
+    """Abstract exploration of all CFG paths with a finite state (P3/P4 without path enumeration).
+    transfer(state, ev) -> state or iterable of states, called on every event (calls, assignments, branch decisions...).
+    Calls for which inline(ev, callee) holds are expanded through the callee's exit states (memoised per entry state;
+    callee events are in the callee's own vocabulary).  Returns {exit_kind: set(states)} with exit kinds
+    'return'/'end' merged as 'normal', plus 'noreturn' and 'throw'.  Log-macro branches are elided as in paths()."""
+    if _memo is None:
+        _memo = {}
+    mk = (fn['key'], init)
+    if mk in _memo:
+        return _memo[mk]
+    v = analyzer.view(fn)
+    exits = {'normal': set(), 'noreturn': set(), 'throw': set()}
+    _memo[mk] = exits      # recursion: treat a recursive call as producing what is known so far
+    seen = set()
+    work = [(fn['entry'], init)]
+
+    def apply(states, ev):
+        out = set()
+        for st in states:
+            r = transfer(st, ev)
+            if r is None:
+                out.add(st)
+            elif isinstance(r, (set, list, frozenset)) and not (isinstance(r, tuple)):
+                out.update(r)
+            else:
+                out.add(r)
+        return out
+
+    while work:
+        b, st = work.pop()
+        if (b, st) in seen:
+            continue
+        seen.add((b, st))
+        if b == fn['exit']:
+            exits['normal'].add(st)
+            continue
+        if v.dead(b):
+            exits['noreturn'].add(st)
+            continue
+        blk = v.blocks[b]
+        states = {st}
+        thrown = False
+        for eid in blk.get('e', []):
+            for ev in v.events_of(eid):
+                if ev.kind == 'call' and inline is not None and depth > 0:
+                    callee = analyzer.resolve(ev)
+                    if callee is not None and callee['key'] not in _stack and callee.get('blocks') and inline(ev, callee):
+                        states = apply(states, Ev('enter', q=callee['q'], key=callee['key'], fn=fn, line=ev.line, obj=ev.obj, args=ev.args))
+                        nstates = set()
+                        for s1 in states:
+                            ex_ = abstract_run(analyzer, callee, s1, transfer, inline, depth - 1, _memo, _stack + (fn['key'],))
+                            nstates |= ex_['normal']
+                            exits['noreturn'] |= ex_['noreturn']
+                            exits['throw'] |= ex_['throw']
+                        states = apply(nstates, Ev('leave', q=callee['q'], key=callee['key'], fn=fn, line=ev.line))
+                        continue
+                states = apply(states, ev)
+                if ev.kind == 'throw':
+                    thrown = True
+        if thrown:
+            exits['throw'] |= states
+            continue
+        ss = blk.get('s', [])
+        t = blk.get('t')
+        if not ss:
+            exits['normal'] |= states
+            continue
+        if t and t.get('k') == 'CXXTryStmt':
+            continue
+        if len(ss) == 2 and t and t.get('k') != 'SwitchStmt':
+            if v.is_log_branch(b):
+                tgt = ss[1] if ss[1] is not None else ss[0]
+                for s1 in states:
+                    work.append((tgt, s1))
+                continue
+            ap = v.cond_atom(b)
+            for i, tgt in enumerate(ss):
+                if tgt is None:
+                    continue
+                if ap is not None:
+                    a, p0 = ap
+                    if a == ('truthy', ('bool', True)) and (i == 0) != p0:
+                        continue
+                    if a == ('truthy', ('int', 0)) and (i == 0) == p0:
+                        continue
+                    bev = Ev('branch', atom=a, pol=((i == 0) == p0), bid=b, line=t.get('l', 0), fn=fn)
+                    for s2 in apply(states, bev):
+                        work.append((tgt, s2))
+                else:
+                    for s1 in states:
+                        work.append((tgt, s1))
+            continue
+        for i, tgt in enumerate(ss):
+            if tgt is None:
+                continue
+            if t and t.get('k') == 'SwitchStmt':
+                lab = v.blocks[tgt].get('label')
+                c = v.cond_elem(b)
+                cev = Ev('case', labels=lab, bid=b, val=v.norm(c) if c is not None else None, line=t.get('l', 0), fn=fn)
+                for s2 in apply(states, cev):
+                    work.append((tgt, s2))
+            else:
+                for s1 in states:
+                    work.append((tgt, s1))
+    return exits
+
+
 def dominators_guard(view, target_eid):
     """set of (atom, truth) facts that hold on every path from entry to element target_eid (P2, path-based)"""
     common = None
